@@ -264,16 +264,16 @@ class CallMixin:
         return self.call_by_contract(st, c, None, [f] + args, kwargs, node)
 
     # ---- by contract
-    def call_function(self, st, fn, args, kwargs, node, selfcls=None):
+    def call_function(self, st, fn, args, kwargs, node, selfcls=None, setter=False):
         fn = getattr(fn, "__func__", fn)
         wrapped = getattr(fn, "__wrapped__", None)
-        key = key_of_function(fn)
+        key = key_of_function(fn) + ("@setter" if setter else "")
         inst = selfcls.__name__ if selfcls is not None else None
         c = lookup(key, inst)
         if c is None:
-            if key in self.inline_keys:
+            if key in self.inline_keys or (key.endswith(".__init__") and key.startswith("statham.")):
                 fi = find_function(key)
-                clo = Closure(fi.node, {}, fi.glob, selfcls=selfcls, name=key)
+                clo = Closure(fi.node, {}, fi.glob, selfcls=selfcls, name=key, defcls=fi.cls)
                 return self.inline_closure(st, clo, args, kwargs, node)
             raise OutOfSubset(f"needs contract: {key}" + (f"[{inst}]" if inst else ""), node)
         return self.call_by_contract(st, c, fn, args, kwargs, node)
@@ -340,7 +340,7 @@ class CallMixin:
         # precondition
         pre = sp.compile_bool(c.requires)
         self.obl("pre", node, st, pre, detail=f"requires of {c.name}: {c.requires}")
-        st = st.assume(pre)
+        st = st.assume(pre, fact=True)
         out = []
         noraise = []
         # exceptional outcomes
@@ -352,9 +352,6 @@ class CallMixin:
                     continue
                 if self.exc_expected(ecls):
                     s2 = st.fork().assume(ct)
-                    if len(names) > 1 or (names, cond) in c.may_raise:
-                        ch = self.fresh_val("raises_" + nm, sort="B")
-                        s2.assume(ch.t)
                     out.append((s2, Exc(ecls, node=node)))
                 elif (names, cond) in c.raises:
                     self.obl("safe", node, st, Not(ct), detail=f"{nm} from {c.name}")
@@ -383,10 +380,25 @@ class CallMixin:
         return out
 
     def contract_result(self, st, c, env, node):
-        selfv = env.get("self")
-        if isinstance(selfv, SymObj) and c.ghost.get("sets"):
-            for a in c.ghost["sets"]:
-                self.oset(st, selfv, a, self.fresh_val("attr_" + a))
+        pre_state = st.fork()
+        # a callee that modifies a fresh object passed to it: the attributes its postcondition talks about
+        # get new (unknown) values, which the postcondition then constrains
+        for m in c.modifies:
+            root = m.split(".")[0]
+            target = env.get(root)
+            if isinstance(target, SymObj):
+                if target.term is not None:
+                    raise OutOfSubset(f"callee {c.name} modifies a fresh object after it escaped into an SMT value", node)
+                names = set(c.ghost.get("sets", []))
+                try:
+                    for clause in [c.returns]:
+                        for nd in ast.walk(ast.parse(clause, mode="eval")):
+                            if isinstance(nd, ast.Attribute) and isinstance(nd.value, ast.Name) and nd.value.id == root:
+                                names.add(nd.attr)
+                except SyntaxError:
+                    pass
+                for a in sorted(names):
+                    self.oset(st, target, a, self.fresh_val("attr_" + a))
         if c.result_cls:
             rcls = self.spec_names[c.result_cls]
         else:
@@ -395,13 +407,13 @@ class CallMixin:
         res = self.fresh_val("ret", kind=c.result_kind, cls=rcls)
         if c.ghost.get("result_fresh"):
             res.fresh = TRUE
-        sp = SpecEval(self, {**env, "result": res}, glob=find_function(c.key).glob)
+        sp = SpecEval(self, {**env, "result": res}, old_env=env, glob=find_function(c.key).glob, old_state=pre_state)
         post = sp.compile_bool(c.returns)
-        st.assume(post)
+        st.assume(post, fact=True)
         if rcls is not None:
-            st.assume(f"(and (k_obj {res.t}) (= (class_of (oid {res.t})) {self.ctab.cid(rcls)}))")
+            st.assume(f"(and (k_obj {res.t}) (= (class_of (oid {res.t})) {self.ctab.cid(rcls)}))", fact=True)
         for extra in c.assume:
-            st.assume(sp.compile_bool(extra))
+            st.assume(sp.compile_bool(extra), fact=True)
         return res
 
     def exc_class(self, name):
@@ -446,6 +458,9 @@ class CallMixin:
         env = dict(clo.env) if clo.env is not None else {}
         env.update(self.bind_params(n.args, args, kwargs, node, glob=clo.glob))
         saved_env, saved_glob, saved_catch = st.env, self.cur_glob, self.catch_stack
+        saved_defcls = self.cur_defcls
+        if clo.defcls is not None:
+            self.cur_defcls = clo.defcls
         s0 = st.fork()
         s0.env = env
         self.cur_glob = clo.glob
@@ -471,6 +486,7 @@ class CallMixin:
             return out
         finally:
             self.cur_glob = saved_glob
+            self.cur_defcls = saved_defcls
             self.call_depth -= 1
             self.catch_stack = saved_catch
 
@@ -641,6 +657,12 @@ class CallMixin:
             return sq, (lambda j: PyList([mkI(j), Val(f"(seq.nth {sq} {j})")], "tuple"))
         raise OutOfSubset(f"iteration over value of unknown kind ({lv.kind})", node)
 
+    def _strip_facts(self, s1, base_pc, facts, mentions_new):
+        keep = tuple(t for i, t in enumerate(s1.pc) if i <= len(base_pc) or not (t in facts and mentions_new(t)))
+        s2 = s1.fork()
+        s2.pc = keep
+        return s2
+
     def comp_symbolic(self, st, n, g, it, kind):
         """Comprehension over a symbolic sequence: characterised by quantified facts over a generic index."""
         sq, elem = self.iter_seq_term(it, n)
@@ -653,6 +675,7 @@ class CallMixin:
         fpaths = self.comp_filter(s, g)
         out = []
         normal = []   # (extra pc list, filter cond, value)
+        self._comp_ndecl = ndecl
         for s1, c in fpaths:
             if is_exc(c):
                 s1.env = dict(st.env)
@@ -668,11 +691,42 @@ class CallMixin:
                         out.append((s2, v))
                     else:
                         normal.append((s2.pc[len(base_pc) + 1:], TRUE, v))
+                        self._comp_states = getattr(self, "_comp_states", []) + [s2]
+        skolem = False
         if len(self.decls) != ndecl and any(v is not None for _, _, v in normal):
-            # element evaluation introduced fresh symbols (callee results): they depend on j.
-            skolem = True
-        else:
-            skolem = False
+            # element evaluation introduced fresh symbols (callee results): if the element value or the
+            # path conditions mention one of them, they depend on j and the closed-form facts are not available
+            new_names = []
+            for dline in self.decls[ndecl:]:
+                parts = dline.replace("(", " ").split()
+                if len(parts) >= 2:
+                    new_names.append(parts[1])
+            def mentions_new(t):
+                return any(_re.search(r"(?<![\w])" + _re.escape(nm) + r"(?![\w])", t) for nm in new_names)
+            # facts about callee results (postconditions of terminating callees) are not conditions on the index
+            all_facts = set()
+            for s1, v in out:
+                all_facts |= s1.facts
+            for st_n in getattr(self, "_comp_states", []):
+                all_facts |= st_n.facts
+            normal = [(tuple(t for t in pcx if not (t in all_facts and mentions_new(t))), cnd, v) for pcx, cnd, v in normal]
+            out = [(self._strip_facts(s1, base_pc, all_facts, mentions_new), v) for s1, v in out]
+            texts = []
+            for pcx, cnd, v in normal:
+                texts.extend(pcx)
+                if v is not None:
+                    try:
+                        if isinstance(v, PyList):
+                            texts.extend(asV(self.lift(x)) for x in v.items)
+                        else:
+                            texts.append(asV(self.lift(v)))
+                    except OutOfSubset:
+                        skolem = True
+            for s1, v in out:
+                texts.extend(s1.pc[len(base_pc) + 1:])
+            blob = " ".join(texts)
+            if any(_re.search(r"(?<![\w])" + _re.escape(nm) + r"(?![\w])", blob) for nm in new_names):
+                skolem = True
         # the normal path: for every index no exceptional path is taken
         s_ok = st.fork()
         q = fresh_name("q")
